@@ -3,9 +3,9 @@ import concurrent.futures, math, re
 import ps, oracle, C13
 
 LEVEL = "proof"
-THEOREMS = ["C17_forward_buffer_bounded", "C17_vector_capacity_bounded"]
+THEOREMS = ["C17_forward_buffer_bounded", "C17_vector_capacity_bounded", "C17_memory_pool_bounded"]
 ASSUMPTIONS = [
-    "proved: the size of the forward prime buffer (for every value of the floating point estimate), and the capacity of primesieve's Vector <= 2 x the largest size / reservation requested, for every operation history; measured (not proved): peak heap of counting / iterating via a replaced allocator - MemoryPool growth and bucket lists are not modelled in Coq (partial)",
+    "proved: the size of the forward prime buffer (for every value of the floating point estimate), and the capacity of primesieve's Vector <= 2 x the largest size / reservation requested, for every operation history; measured (not proved): peak heap of counting / iterating via a replaced allocator - which buckets EratMedium / EratBig hold at a time (the pool's peak demand) is not modelled in Coq (partial); the pool's own bookkeeping is: no bucket lost, fewer than peak demand + MAX_ALLOC_BYTES/sizeof(Bucket) buckets owned, for every addBucket/freeBucket history",
     "allocator overhead, thread stacks and libstdc++ internals are outside the measurement's model",
 ]
 EXPLANATION = "Coq theorem on the forward buffer size + correspondence of that size with the real IteratorData, and heap measurements (replaced operator new/delete, wrapped malloc): peak independent of the interval length over three orders of magnitude, bounded by an explicit function of sqrt(stop) and the sieve size, at most 2 KiB after clear(), zero after destruction"
@@ -75,6 +75,59 @@ def correspond(ctx):
                 if cap > 2 * high or sz > cap: bad = {"ops": h[:h.index(op) + 1] if False else h, "size": sz, "capacity": cap, "largest_request": high}; break
             mismatches.append({"key": "vector-growth", "what": "Vector<uint64_t> history %s: (size,capacity) per step %s, model %s%s" % (" ".join(h), l, m, "; capacity %d exceeds twice the largest request %d" % (bad["capacity"], bad["largest_request"]) if bad else ""),
                                "failing_input": bad})
+    # 1c. MemoryPool bookkeeping: addBucket / freeBucket histories, real MemoryPool vs the extracted pool_step, and the proved bound
+    def pool_hist(n):
+        ops, held = [], 0
+        while len(ops) < n:
+            run = rng.between(1, 200)
+            if rng.chance(3, 5) or held == 0:
+                ops += ["a"] * run; held += run
+            else:
+                run = min(run, held + rng.below(3)); ops += ["f"] * run; held = max(0, held - run)
+        return ops
+    phists = [["a"] * 75 + ["f"] * 75 + ["a"] * 100, ["a"] * 73 + ["f"] + ["a"] * 2 + ["f"] * 80 + ["a"] * 200, ["f", "a", "f", "f", "a"]]
+    phists += [pool_hist(rng.between(100, 1500)) for _ in range(12 if not ctx.thorough else 60)]
+    phists.append(["a"] * (3000 if not ctx.thorough else 20000) + ["f"] * 500 + ["a"] * 700)
+    rc, o, e = ps.run([kp], input="".join("POOL %s\n" % " ".join(h) for h in phists), timeout=600)
+    real = [l.split() for l in o.splitlines()] + [["0"]] * len(phists)
+    rcm, om, em = ps.run([model], input="".join("LEAF pool %s %s\n" % (r[0], " ".join(x.split(":")[0] for x in r[1:])) for r in real[:len(phists)]), timeout=600)
+    dist["pool_histories"] = len(phists); dist["pool_ops"] = sum(len(h) for h in phists); dist["pool_max_allocations"] = 0
+    def pool_scan(h, r, msteps):
+        """walk one history: bucket conservation and the proved bound on the implementation's own numbers, then (msteps given) the model"""
+        maxc = int(r[0]) if r and r[0].isdigit() else 0
+        steps = r[1:]
+        if maxc < 73 or len(steps) != len(h):
+            return "MAX_ALLOC_BYTES / sizeof(Bucket) = %d (< 73) or probe output incomplete (%d of %d operations)" % (maxc, len(steps), len(h)), None, 0
+        inuse = total = peak = 0; lastn = 0
+        for i, st in enumerate(steps):
+            tag, vals = st.split(":"); n, cnt, stock = (int(x) for x in vals.split(","))
+            if tag[0] == "a": inuse += 1; peak = max(peak, inuse)
+            elif inuse > 0: inuse -= 1
+            if n != lastn: total += cnt; lastn = n
+            if stock + inuse != total or total > peak + maxc or cnt > max(maxc, 73):
+                bad = {"ops": "a*%d ..." % h.index("f") if len(h) > 2000 and "f" in h else "".join(h[:i + 1]), "operation": i + 1, "allocations": n, "count_": cnt, "stock": stock, "in_use": inuse, "buckets_allocated": total, "peak_in_use": peak, "maxCount": maxc}
+                return "after operation %d: stock %d + in use %d vs %d buckets allocated (peak in use %d, count_ %d, maxCount %d): the pool lost a bucket or allocated beyond peak demand + maxCount" % (i + 1, stock, inuse, total, peak, cnt, maxc), bad, lastn
+            if msteps is not None:
+                mm = msteps[i].split(",")[:3] if i < len(msteps) else None
+                if mm != [str(n), str(cnt), str(stock)]:
+                    return "after operation %d (%s): implementation (allocations, count_, stock) = (%d, %d, %d), model %s" % (i + 1, tag, n, cnt, stock, mm), None, lastn
+        return None, None, lastn
+    deep_done = False
+    for h, r, m in zip(phists, real, om.splitlines() + [""] * len(phists)):
+        why, bad, lastn = pool_scan(h, r, m.split())
+        dist["pool_max_allocations"] = max(dist["pool_max_allocations"], lastn)
+        sigs.add(("pool", lastn, len(h) // 500))
+        if why and bad is None and not deep_done:
+            # the correspondence broke: look for a history on which the implementation itself breaks the proved bound
+            deep_done = True
+            for hh in (["a"] * 25000, ["a"] * 2500 + ["f"] * 2500 + ["a"] * 6000):
+                rc2, o2, e2 = ps.run([kp], input="POOL %s\n" % " ".join(hh), timeout=600)
+                w2, b2, _ = pool_scan(hh, o2.split(), None)
+                if b2:
+                    b2["ops"] = "a*25000" if "f" not in hh else "a*2500 f*2500 a*6000"
+                    mismatches.append({"key": "memory-pool", "what": "MemoryPool history %s: %s" % (b2["ops"], w2), "failing_input": b2}); break
+        if why:
+            mismatches.append({"key": "memory-pool", "what": "MemoryPool history of %d operations: %s" % (len(h), why), "failing_input": bad})
     # 2. heap measurements
     jobs = []
     for mag, kb in ((10 ** 9, 32), (10 ** 12, 32), (10 ** 14, 32)):
@@ -141,9 +194,9 @@ def correspond(ctx):
             if big[1] > 1.3 * small[1] + 65536:
                 mismatches.append({"key": "peak-shape", "what": "%s at %d: peak heap grows with the interval length: %s" % (key[0], key[1], [(a, b) for a, b, _ in lst]),
                                    "failing_input": {"jobs": [l[2] for l in lst], "peaks": [l[1] for l in lst]}})
-    ev = dist["capacity_cases"] + dist["measurements"] + dist["vector_histories"]
+    ev = dist["capacity_cases"] + dist["measurements"] + dist["vector_histories"] + dist["pool_histories"]
     return {"evaluations": ev, "distinct_nontrivial": len(sigs),
-            "rule": "Vector.hpp: random histories of push_back/reserve/resize/append/clear, real Vector<uint64_t> (size, capacity) after every operation vs the extracted vec_run; forward buffer size for (start, stop_hint) around the cached-prime table, explicit far hints and random pairs (implementation vs model vs 1024); peak heap of count_primes / forward / backward iteration (without and with a stop_hint at the far end) at fixed magnitude with the span varied over three orders of magnitude; bytes held after clear() and after destruction for 5 histories. distinct = distinct (measurement kind, span class) / (capacity class)",
+            "rule": "MemoryPool.cpp: addBucket/freeBucket histories (up to 3000 / 20000 buckets), real MemoryPool (allocations, count_, stock length after every operation, std::align waste observed) vs the extracted pool_step, bucket conservation and the proved bound checked on the implementation; Vector.hpp: random histories of push_back/reserve/resize/append/clear, real Vector<uint64_t> (size, capacity) after every operation vs the extracted vec_run; forward buffer size for (start, stop_hint) around the cached-prime table, explicit far hints and random pairs (implementation vs model vs 1024); peak heap of count_primes / forward / backward iteration (without and with a stop_hint at the far end) at fixed magnitude with the span varied over three orders of magnitude; bytes held after clear() and after destruction for 5 histories. distinct = distinct (measurement kind, span class) / (capacity class)",
             "samples": samples[:8], "mismatches": sorted(mismatches, key=lambda m: 0 if m.get("failing_input") else 1)[:20], "distribution": dist, "variants": ["default"]}
 
 
